@@ -43,8 +43,9 @@ using namespace verif;
 static Report g_rep;
 static std::string g_out, g_hashes, g_failout;
 static std::set<std::string> g_known;
-static const uint8_t* volatile g_cur_data = nullptr;
-static volatile size_t g_cur_size         = 0;
+// read by the watchdog thread and by the sanitizer death callback: atomics, not volatile
+static std::atomic<const uint8_t*> g_cur_data { nullptr };
+static std::atomic<size_t> g_cur_size { 0 };
 static std::atomic<uint64_t> g_case_counter { 0 };
 static std::atomic<bool> g_done { false };
 static double g_hang_s = 10.0;
@@ -84,11 +85,11 @@ static void write_fail(const std::string& sig, const std::string& msg, const voi
 static void death_callback()
 {
     static bool once = false;
-    if (once || g_cur_data == nullptr)
+    if (once || g_cur_data.load() == nullptr)
         return; // not inside a case: nothing of ours to blame
     once = true;
     std::string id = harness_info().id;
-    write_fail(id + "/sanitizer", "sanitizer or abort while running the case (see log)", (const void*)g_cur_data, g_cur_size);
+    write_fail(id + "/sanitizer", "sanitizer or abort while running the case (see log)", (const void*)g_cur_data.load(), g_cur_size.load());
     // no report flush here: the containers may be mid-update
 }
 
@@ -141,7 +142,7 @@ static void watchdog()
     {
         std::this_thread::sleep_for(std::chrono::milliseconds(100));
         uint64_t now = g_case_counter.load();
-        if (now != last || g_cur_data == nullptr)
+        if (now != last || g_cur_data.load() == nullptr)
         {
             last = now;
             t0   = std::chrono::steady_clock::now();
@@ -151,7 +152,8 @@ static void watchdog()
         if (el > g_hang_s)
         {
             std::string id = harness_info().id;
-            std::vector<uint8_t> copy(g_cur_data, g_cur_data + g_cur_size);
+            const uint8_t* cur = g_cur_data.load();
+            std::vector<uint8_t> copy(cur, cur + g_cur_size.load());
             write_fail(id + "/hang", "case did not finish within " + std::to_string(g_hang_s) + " s", copy.data(), copy.size());
             fprintf(stderr, "WATCHDOG: case hung for %.1f s\n", el);
             _exit(3);
